@@ -96,8 +96,10 @@ def gen_model(rng, o=None, pool=None, idgen=None, made=None, depth=None, top=Tru
             return {"k": "ref", "to": m["label"], "_of": m}
         if made and r < o.p_share + o.p_copy:
             import copy
-            c = copy.deepcopy(strip(rng.choice(made)))
+            orig = rng.choice(made)
+            c = copy.deepcopy(strip(orig))
             _unlabel(c)
+            c["_copy_of"] = id(orig)
             return c
         if d <= 0 or r > 1 - o.p_leaf:
             return leaf()
@@ -143,8 +145,8 @@ def _rid(r):
     if r["k"] in ("var", "str"):
         return ("leaf", r["id"])
     if r["k"] == "ref":
-        return ("ref", r["to"])
-    return ("node", id(r))
+        return ("node", id(r["_of"]))
+    return ("node", r.get("_copy_of", id(r)))
 
 
 def strip(r):
@@ -195,6 +197,9 @@ def build(r, env=None, cc=None):
         return env[r["to"]]
     args = [build(a, env, cc) for a in r["args"]]
     vid = r.get("id")
+    if r.get("fix") is not None and vid is not None:
+        # a sub-proposition pre-fixed to a constant by the bounds of its own variable
+        vid = puan.variable(vid, bounds=(int(r["fix"]), int(r["fix"])))
     if k == "All":
         m = pg.All(*args, variable=vid)
     elif k == "Any":
